@@ -82,9 +82,14 @@ def _dev():
 def _harness_sources(flavour):
     srcs = []
     dev_name, dev_files = _dev()
+    # TUs still under development are kept out of the full binary (they are built through VH_DEV only)
+    wip_path = os.path.join(VERIF, "harness", "WIP.txt")
+    wip = set(open(wip_path).read().split()) if os.path.exists(wip_path) else set()
     for path in sorted(glob.glob(os.path.join(VERIF, "harness", "*.cpp")) + glob.glob(os.path.join(VERIF, "harness", "common", "*.cpp"))):
         base = os.path.basename(path)
         if dev_name and base != "main.cpp" and "/common/" not in path and base not in dev_files:
+            continue
+        if not dev_name and base in wip:
             continue
         if flavour != "asan":
             # TUs opt in to other flavours with a marker line:  // VH_FLAVOURS: asan tsan
